@@ -3,7 +3,7 @@
 From Coq Require Import List NArith ZArith Lia Bool Arith ZifyBool ZifyN ZifyNat Sorted.
 From Coq Require Import Strings.Byte.
 Require Import BS.Bytes BS.Common BS.CommonFacts BS.Api BS.Layout BS.Format BS.FormatFacts.
-Require Import BS.FS BS.FSFacts BS.Meta BS.MetaFacts BS.Header BS.Reader BS.Index BS.Data BS.DataFacts BS.Seek BS.Series.
+Require Import BS.FS BS.FSFacts BS.Meta BS.MetaFacts BS.Header BS.Reader BS.ReaderFacts BS.Index BS.Data BS.DataFacts BS.Seek BS.Series.
 Require Import BS.Spec BS.SpecStep.
 Import ListNotations.
 Close Scope N_scope. Open Scope nat_scope.
@@ -187,4 +187,273 @@ Proof.
         - destruct l; [discriminate FA|discriminate]. }
       rewrite (sections_push p _ _ _ (rd_legal _ _ _ _ _ _ _ _ RD) LO), enc_index_app, app_assoc. reflexivity.
   - destruct H as [e H]. rewrite E in H. discriminate.
+Qed.
+
+(* ---- C01 for the model: a full read returns exactly the accepted lines ---- *)
+Lemma next_multiple_of_spec a m : (0 < m)%N ->
+  let r := next_multiple_of a m in (r mod m = 0)%N /\ (a <= r)%N /\ (r < a + m)%N.
+Proof.
+  intros Hm. unfold next_multiple_of. destruct (a mod m =? 0)%N eqn:E.
+  - apply N.eqb_eq in E. cbn zeta. repeat split; try lia; try exact E.
+  - apply N.eqb_neq in E. cbn zeta. pose proof (N.mod_lt a m ltac:(lia)).
+    pose proof (N.div_mod a m ltac:(lia)).
+    repeat split; try lia.
+    replace (a + (m - a mod m))%N with ((a / m + 1) * m)%N by nia. apply N.mod_mul. lia.
+Qed.
+
+Lemma feed_read : forall (l:list line) last out,
+  StronglySorted N.lt (map fst l) -> Forall (fun x => (fst x < U64)%N) l ->
+  (match l with x :: _ => (last < fst x)%N \/ fst x = 0%N | [] => True end) ->
+  feed _ proc_read (last, out) l = PCont (match last_opt l with Some y => fst y | None => last end, rev l ++ out).
+Proof.
+  induction l as [|x t IH]; intros last out S F H; cbn [feed]; [reflexivity|].
+  inversion F as [|? ? Hx Ft]; subst. cbn [map] in S. inversion S as [|? ? St Hall]; subst.
+  replace (fst x <? U64)%N with true by (symmetry; apply N.ltb_lt; exact Hx).
+  unfold proc_read at 1.
+  replace ((last <? fst x) || (fst x =? 0))%N with true
+    by (symmetry; apply orb_true_iff; destruct H as [H|H]; [left; apply N.ltb_lt; exact H|right; apply N.eqb_eq; exact H]).
+  rewrite IH; try assumption.
+  - f_equal. destruct x as [tx px]. cbn [fst snd]. f_equal.
+    + destruct t as [|y t']; [reflexivity|]. cbn [last_opt]. rewrite Layout.last_cons. reflexivity.
+    + cbn [rev]. rewrite <- app_assoc. reflexivity.
+  - destruct t as [|y t']; [exact I|]. left. cbn [map] in Hall. inversion Hall; subst. assumption.
+Qed.
+
+Lemma encode_cons p x t : encode p (x :: t) = enc_section p (fst x) ++ enc_line 0 (snd x) ++ encode_from p (Some (fst x)) t.
+Proof. unfold encode. cbn [encode_from tail_bytes]. rewrite <- app_assoc. reflexivity. Qed.
+
+Lemma chunks_region_cons p x t : wf_series p (x :: t) ->
+  chunks (p + 2) (encode p (x :: t))
+  = Layout.sec_slots p (fst x) ++ chunks (p + 2) (enc_line 0 (snd x) ++ encode_from p (Some (fst x)) t).
+Proof.
+  intros W. rewrite encode_cons. unfold enc_section. apply chunks_app; [lia|apply sec_slots_lengths].
+Qed.
+
+Section FullRead.
+Variables (fs:fsys) (d:data) (p:nat) (hdr ihdr:list byte) (x:line) (t:list line) (f':N).
+Let l := x :: t.
+Let region := encode p l.
+Let y := last t x.
+Hypothesis RD : RepD fs d p hdr ihdr region (Some f') (Some (fst y)).
+Hypothesis W : wf_series p l.
+
+Lemma fr_sizes : length region = (Layout.K p + 1 + slots_from p (Some (fst x)) t) * (p + 2)
+                 /\ metainfo_size p = N.of_nat (Layout.K p * (p + 2)) /\ (fst x <= fst y)%N.
+Proof.
+  split; [|split].
+  - unfold region. rewrite (encode_length p l (wf_payloads p l W)). reflexivity.
+  - unfold metainfo_size, line_size. rewrite K_eq. lia.
+  - pose proof (sorted_le_last l y (proj1 W) eq_refl) as F. inversion F; subst. assumption.
+Qed.
+
+Lemma rough_new_unb :
+  rough_new d Unb Unb
+  = Ok {| start_ts := fst x; start_area_ := SFound (metainfo_size p); start_full := fst x;
+          end_ts := fst y; end_area_ := EFound (len region - line_size p)%N; end_full := f' |}.
+Proof.
+  destruct fr_sizes as (RL & KL & LE).
+  destruct RD as [Rp Rf Rl Rix Re Rlast Rlegal Rdl Rn].
+  pose proof (sections_encode p _ W) as SE. fold region in SE. unfold l in SE. cbn [secs_from] in SE.
+  unfold rough_new, checked_start_time, checked_end_time, data_range.
+  rewrite Re, SE, Rdl. cbn [bind fst snd].
+  rewrite N.max_id, N.min_id.
+  replace (fst y <? fst x)%N with false by (symmetry; apply N.ltb_ge; exact LE).
+  cbn [bind]. rewrite Rp, Rl, Rlast.
+  replace (len region <? line_size p)%N with false
+    by (symmetry; apply N.ltb_ge; unfold len, line_size; rewrite RL; nia).
+  cbn [bind fst snd]. unfold line_start. rewrite N.add_0_l.
+  replace (fst y <? fst x)%N with false by (symmetry; apply N.ltb_ge; exact LE). reflexivity.
+Qed.
+
+Lemma refine_unb r : r = {| start_ts := fst x; start_area_ := SFound (metainfo_size p); start_full := fst x;
+          end_ts := fst y; end_area_ := EFound (len region - line_size p)%N; end_full := f' |} ->
+  refine r d fs = (fs, Ok (Some {| p_start := metainfo_size p; p_end := len region; p_full := fst x |})).
+Proof.
+  intros ->. destruct fr_sizes as (RL & KL & LE).
+  unfold refine. cbn [start_area_ end_area_ start_full].
+  erewrite mbind_ok by reflexivity. erewrite mbind_ok by reflexivity.
+  rewrite (rd_p _ _ _ _ _ _ _ _ RD).
+  replace (len region - line_size p + line_size p)%N with (len region) by (unfold len, line_size; rewrite RL; nia).
+  replace (len region <=? metainfo_size p)%N with false
+    by (symmetry; apply N.leb_gt; rewrite KL; unfold len; rewrite RL; nia).
+  reflexivity.
+Qed.
+
+Lemma fwim_read_full cb0 :
+  fwim_read (d_file d) p cb0 (metainfo_size p) (len region) (fst x) fs = (fs, Ok l).
+Proof.
+  destruct fr_sizes as (RL & KL & LE).
+  pose proof (wf_payloads p _ W) as WP.
+  destruct RD as [Rp Rf Rl Rix Re Rlast Rlegal Rdl Rn].
+  unfold fwim_read. erewrite mbind_ok by (apply (of_read_from_0 _ _ hdr region); exact Rf).
+  unfold read_with_processor.
+  replace (len region <? metainfo_size p)%N with false
+    by (symmetry; apply N.ltb_ge; rewrite KL; unfold len; rewrite RL; nia).
+  set (chunkN := next_multiple_of BSgen.Consts.read_chunk (N.of_nat (p + 2))).
+  destruct (next_multiple_of_spec BSgen.Consts.read_chunk (N.of_nat (p + 2)) ltac:(lia)) as (CM & CGE & _).
+  fold chunkN in CM, CGE.
+  assert (CPOS : (0 < chunkN)%N) by (assert (0 < BSgen.Consts.read_chunk)%N by reflexivity; lia).
+  set (to_read := (len region - metainfo_size p)%N).
+  assert (TR : to_read = N.of_nat (length region - Layout.K p * (p + 2))).
+  { unfold to_read, len. rewrite KL. lia. }
+  pose proof (chunk_loop_is_scan _ proc_read p cb0
+               (S (N.to_nat (N.min (to_read / chunkN) (len region / chunkN + 1)))) (N.to_nat chunkN)
+               region (Layout.K p * (p + 2)) (length region - Layout.K p * (p + 2)) (fst x) RN (0%N, [])) as CL.
+  cbn [held_slots concat] in CL. rewrite N2Nat.id, <- TR, <- KL in CL.
+  rewrite CL; clear CL.
+  2:{ lia. }
+  2:{ replace (p + 2) with (N.to_nat (N.of_nat (p + 2))) by lia. rewrite <- N2Nat.inj_mod by lia.
+      rewrite CM. reflexivity. }
+  2:{ rewrite RL. replace ((Layout.K p + 1 + slots_from p (Some (fst x)) t) * (p + 2) - Layout.K p * (p + 2))
+        with ((1 + slots_from p (Some (fst x)) t) * (p + 2)) by nia. apply Nat.mod_mul. lia. }
+  2:{ lia. }
+  2:{ assert (Hd : (to_read / chunkN <= len region / chunkN)%N) by (apply N.div_le_mono; unfold to_read; lia).
+      rewrite N.min_l by lia.
+      pose proof (N.div_mod to_read chunkN ltac:(lia)). pose proof (N.mod_lt to_read chunkN ltac:(lia)).
+      assert (N.of_nat (length region - Layout.K p * (p + 2)) <= N.of_nat (S (N.to_nat (to_read / chunkN)) * N.to_nat chunkN))%N; [|lia].
+      rewrite <- TR. rewrite Nat2N.inj_mul, Nat2N.inj_succ, !N2Nat.id. nia. }
+  2:{ reflexivity. }
+  2:{ exact I. }
+  2:{ constructor. }
+  (* what was scanned: everything after the first section *)
+  assert (SK : firstn (length region - Layout.K p * (p + 2)) (skipn (Layout.K p * (p + 2)) region)
+               = enc_line 0 (snd x) ++ encode_from p (Some (fst x)) t).
+  { unfold region, l. rewrite encode_cons.
+    rewrite <- (enc_section_length p (fst x)). rewrite skipn_app, Nat.sub_diag, skipn_all. cbn [skipn app].
+    apply firstn_all2. rewrite !app_length. lia. }
+  rewrite SK.
+  pose proof (scan_encode p _ W) as SC. unfold scan in SC.
+  unfold l in SC. rewrite (chunks_region_cons p x t W), fold_left_app in SC.
+  change fscan0 with (mk FStart 0 [] [] 0 0) in SC.
+  rewrite (fold_section p FStart 0 [] [] 0 0 (fst x) I) in SC
+    by (destruct W as [_ F]; inversion F as [|? ? [H _] _]; exact H).
+  assert (FL : Forall (fun s0 => length s0 = p + 2) (chunks (p + 2) (enc_line 0 (snd x) ++ encode_from p (Some (fst x)) t))).
+  { pose proof (Forall_inv WP) as Hpx. pose proof (Forall_inv_tail WP) as WPt. cbn beta in Hpx.
+    destruct (encode_from_slots p t (Some (fst x)) WPt) as (ls & E & F & _).
+    rewrite E.
+    replace (enc_line 0 (snd x) ++ concat ls) with (concat (enc_line 0 (snd x) :: ls)) by reflexivity.
+    assert (FF : Forall (fun s0 => length s0 = p + 2) (enc_line 0 (snd x) :: ls)).
+    { constructor; [apply enc_line_length; exact Hpx|exact F]. }
+    rewrite chunks_concat by (try lia; exact FF). exact FF. }
+  destruct (full_after_cons_none p x t) as [f2 FA].
+  destruct (sim_lines _ proc_read p cb0 _ (fst x) RN (FNormal (fst x)) (0%N, []) (0 + Layout.K p) []
+              [(fst x, N.of_nat (0 * (p + 2)))] 0 0 (MS_N p (fst x)) FL) as (newl & f3 & st3 & A & B & C).
+  { rewrite SC. cbn [f_st mk]. rewrite FA. discriminate. }
+  rewrite SC in A. cbn [f_lines mk] in A. rewrite app_nil_r in A.
+  apply (f_equal (@rev line)) in A. rewrite !rev_involutive in A. subst newl.
+  rewrite C. rewrite feed_read.
+  - cbn [result_of]. unfold ret. rewrite app_nil_r, frev_rev, rev_involutive. reflexivity.
+  - exact (proj1 W).
+  - destruct W as [_ F]. eapply Forall_impl; [|exact F]. intros a [H _]. exact H.
+  - destruct (N.eq_dec (fst x) 0) as [E|E]; [right; exact E|left; lia].
+Qed.
+End FullRead.
+
+Theorem read_all_full_ok fs s p hdr ihdr l :
+  RepH fs s p hdr ihdr l -> l <> [] -> read_all s Unb Unb fs = (fs, Ok l).
+Proof.
+  intros [RD W RR RDn] Hne. destruct l as [|x t]; [congruence|].
+  destruct (full_after_cons_none p x t) as [f' FA]. rewrite FA in RD.
+  change (option_map fst (last_opt (x :: t))) with (Some (fst (last t x))) in RD.
+  unfold read_all, seek_pos.
+  rewrite (rough_new_unb fs (s_data s) p hdr ihdr x t f' RD W).
+  erewrite mbind_ok by (apply mcatch_ok; apply (refine_unb fs (s_data s) p hdr ihdr x t f' RD W); reflexivity).
+  rewrite (rd_p _ _ _ _ _ _ _ _ RD).
+  cbn [p_start p_end p_full]. apply (fwim_read_full fs (s_data s) p hdr ihdr x t f' RD W).
+Qed.
+
+(* ---- create: ByteSeries::new_with_resamplers without caches establishes the invariant ---- *)
+Lemma fs_mem_get fs f : fs_mem fs f = false -> fs_get fs f = None.
+Proof. unfold fs_mem, fs_get. destruct (fs_raw fs f); [discriminate|reflexivity]. Qed.
+Lemma fs_mem_put_other fs f g c : g <> f -> fs_mem (fs_put fs f c) g = fs_mem fs g.
+Proof. intros N. unfold fs_mem, fs_put. rewrite fs_raw_put_other by exact N. reflexivity. Qed.
+
+Lemma fwh_new_ok fs path header : fs_mem fs path = false -> (len header <= 65535)%N ->
+  exists fs', fwh_new path header fs
+              = (fs', Ok {| of_name := path; of_off := (user_header_starts + len header)%N |})
+    /\ file_is fs' {| of_name := path; of_off := (user_header_starts + len header)%N |}
+               (le_enc 2 (len header) ++ BSgen.Consts.line_ends ++ header) []
+    /\ (forall g, g <> path -> fs_get fs' g = fs_get fs g)
+    /\ (forall g, g <> path -> fs_mem fs' g = fs_mem fs g).
+Proof.
+  intros NM Hl. unfold fwh_new.
+  replace (65535 <? len header)%N with false by (symmetry; apply N.ltb_ge; exact Hl).
+  assert (C : create_new path fs = (fs_put fs path [], Ok tt)) by (unfold create_new; rewrite NM; reflexivity).
+  erewrite mbind_ok by exact C.
+  destruct (append_ok (fs_put fs path []) path [] (le_enc 2 (len header) ++ BSgen.Consts.line_ends ++ header)
+              (fs_get_put_same fs path [])) as (fs2 & E & G & O).
+  erewrite mbind_ok by exact E. eexists. split; [reflexivity|]. split; [|split].
+  - split; cbn [of_name of_off].
+    + rewrite G. cbn [app]. rewrite app_nil_r. reflexivity.
+    + unfold user_header_starts, len. rewrite !app_length, le_enc_length. lia.
+  - intros g N. rewrite (O g N). apply fs_get_put_other. exact N.
+  - intros g N. unfold fs_mem. pose proof (O g N) as Og. unfold fs_get in Og.
+    rewrite (fs_get_put_other fs path g [] N) in Og || idtac.
+    unfold fs_get in *. unfold fs_put in Og. rewrite fs_raw_put_other in Og by exact N.
+    destruct (fs_raw fs2 g), (fs_raw fs g); cbn [option_map] in Og; try discriminate; reflexivity.
+Qed.
+
+Lemma app_inj_tail_neq (name a b:list byte) : a <> b -> name ++ a <> name ++ b.
+Proof. intros N E. apply app_inv_head in E. contradiction. Qed.
+Lemma ext_data_index_neq name : name ++ ext_data <> name ++ ext_index.
+Proof. apply app_inj_tail_neq. unfold ext_index. intro E. apply (f_equal (@length byte)) in E. rewrite app_length in E. cbn in E. lia. Qed.
+
+Lemma sections_nil p : sections p [] = [].
+Proof. unfold sections, scan. rewrite chunks_nil. reflexivity. Qed.
+
+Theorem data_new_ok fs name p header :
+  fs_mem fs (name ++ ext_data) = false -> fs_mem fs (name ++ ext_index) = false -> (len header <= 65535)%N ->
+  exists fs' d,
+    data_new name p header fs = (fs', Ok d)
+    /\ RepD fs' d p (le_enc 2 (len header) ++ BSgen.Consts.line_ends ++ header)
+            (le_enc 2 0 ++ BSgen.Consts.line_ends) [] None None
+    /\ of_name (d_file d) = name ++ ext_data /\ of_name (ix_file (d_index d)) = name ++ ext_index
+    /\ (forall g, g <> name ++ ext_data -> g <> name ++ ext_index -> fs_get fs' g = fs_get fs g).
+Proof.
+  intros M1 M2 Hl. unfold data_new.
+  destruct (fwh_new_ok fs (name ++ ext_data) header M1 Hl) as (fs1 & E1 & F1 & O1 & OM1).
+  erewrite mbind_ok by exact E1.
+  erewrite mbind_ok by (apply (of_len_ok _ _ _ _ F1)).
+  assert (FW : fwim_new {| of_name := name ++ ext_data; of_off := (user_header_starts + len header)%N |} p fs1 = (fs1, Ok tt)).
+  { unfold fwim_new. erewrite mbind_ok by (apply (of_len_ok _ _ _ _ F1)). reflexivity. }
+  erewrite mbind_ok by exact FW.
+  assert (M2' : fs_mem fs1 (name ++ ext_index) = false).
+  { rewrite OM1; [exact M2|]. apply not_eq_sym. apply ext_data_index_neq. }
+  destruct (fwh_new_ok fs1 (name ++ ext_index) [] M2' ltac:(cbn; lia)) as (fs2 & E2 & F2 & O2 & _).
+  erewrite mbind_ok.
+  2:{ apply mcatch_ok. unfold index_new. erewrite mbind_ok by exact E2. reflexivity. }
+  do 2 eexists. split; [reflexivity|]. split; [|split; [reflexivity|split; [reflexivity|]]].
+  - constructor; cbn [d_p d_file d_len d_index d_last ix_file ix_entries ix_last of_name].
+    + reflexivity.
+    + eapply file_is_other; [exact F1|]. cbn [of_name]. apply O2. apply ext_data_index_neq.
+    + reflexivity.
+    + rewrite sections_nil. cbn [enc_index map concat]. rewrite app_nil_r in F2. exact F2.
+    + rewrite sections_nil. reflexivity.
+    + reflexivity.
+    + apply legal_nil.
+    + reflexivity.
+    + apply ext_data_index_neq.
+  - intros g N1 N2. rewrite (O2 g N2). apply O1. exact N1.
+Qed.
+
+Theorem series_new_ok fs name p hdr cb0 :
+  fs_mem fs (name ++ ext_data) = false -> fs_mem fs (name ++ ext_index) = false ->
+  (len (params_to_text BSgen.Consts.version (N.of_nat p) ++ hdr) <= 65535)%N ->
+  let header := params_to_text BSgen.Consts.version (N.of_nat p) ++ hdr in
+  exists fs' s,
+    series_new name (N.of_nat p) hdr [] cb0 fs = (fs', Ok s)
+    /\ RepH fs' s p (le_enc 2 (len header) ++ BSgen.Consts.line_ends ++ header) (le_enc 2 0 ++ BSgen.Consts.line_ends) []
+    /\ s_cb s = cb0
+    /\ of_name (d_file (s_data s)) = name ++ ext_data /\ of_name (ix_file (d_index (s_data s))) = name ++ ext_index
+    /\ (forall g, g <> name ++ ext_data -> g <> name ++ ext_index -> fs_get fs' g = fs_get fs g).
+Proof.
+  intros M1 M2 Hl header. unfold series_new. rewrite Nat2N.id.
+  destruct (data_new_ok fs name p header M1 M2 Hl) as (fs' & d & E & RD & N1 & N2 & O).
+  erewrite mbind_ok by exact E. cbn [create_caches]. erewrite mbind_ok by reflexivity.
+  do 2 eexists. split; [reflexivity|]. split; [|split; [reflexivity|split; [exact N1|split; [exact N2|exact O]]]].
+  constructor; cbn [s_data s_range s_down].
+  - exact RD.
+  - split; constructor.
+  - reflexivity.
+  - reflexivity.
 Qed.
